@@ -3,6 +3,7 @@ package bgp
 import (
 	"fmt"
 	"net"
+	"strings"
 	"time"
 
 	bnet "github.com/bio-routing/bio-rd/net"
@@ -31,6 +32,7 @@ type DUT struct {
 	Peers []*Peer
 	RIB4  *locRIB.LocRIB
 	RIB6  *locRIB.LocRIB
+	wedgeReported bool
 }
 
 var dutLocalIP = bnet.IPv4FromOctets(10, 0, 0, 254)
@@ -119,7 +121,22 @@ func (d *DUT) AddPeer(c PeerCfg) (*Peer, error) {
 
 // FSMs returns the accessor view of a peer's FSMs.
 func (d *DUT) FSMs(p *Peer) []server.VerifFSM {
-	return server.VerifPeerFSMs(d.Srv, d.VRF, p.Cfg.bnetAddr())
+	fs := server.VerifPeerFSMs(d.Srv, d.VRF, p.Cfg.bnetAddr())
+	if len(fs) == 1 && fs[0].State == server.VerifFSMListLocked {
+		// a goroutine of the DUT sits on the peer's FSM list lock while nothing can run any more:
+		// the peer is wedged (session control deadlock); reported for the property whose workload
+		// produced it, and once per run
+		if !d.wedgeReported {
+			d.wedgeReported = true
+			var sb strings.Builder
+			for _, b := range d.env.Sim.BlockedOnLocks() {
+				fmt.Fprintf(&sb, "-- goroutine %d waits for a lock held by %v at:\n%s", b.G, b.Owners, indent(firstFrames(b.Stack, 8)))
+			}
+			d.env.Violate(d.env.PlanProp, "peer_wedged_fsm_list_locked", "peer %s: the lock of the peer's FSM list is held at quiescence (its holder is blocked for ever; every later connection, policy change or metrics call for this peer blocks too)\n%s", p.Cfg.Name, sb.String())
+		}
+		return nil
+	}
+	return fs
 }
 
 // EstablishedFSM returns the (first) Established FSM of a peer, if any, and how many there are.
